@@ -7,8 +7,8 @@ from common import case_rng
 from framework import Finding
 
 MON = {"C01": solvermon.mon_c01, "C02": solvermon.mon_c02, "C03": solvermon.mon_c03, "C05": solvermon.mon_c05}
-CORR = {"C01": ("de", "nm", "pw"), "C02": ("de", "nm", "pw"), "C03": ("de", "nm", "pw"), "C04": ("ctl", "de", "nm", "pw"), "C05": ("ctl",)}
-REQ = {"de": solvermodel.de_request, "nm": solvermodel.nm_request, "ctl": solvermodel.ctl_request, "pw": solvermodel.pw_request}
+CORR = {"C01": ("de", "nm", "pw", "solve"), "C02": ("de", "nm", "pw"), "C03": ("de", "nm", "pw"), "C04": ("ctl", "de", "nm", "pw", "solve"), "C05": ("ctl", "solve")}
+REQ = {"de": solvermodel.de_request, "nm": solvermodel.nm_request, "ctl": solvermodel.ctl_request, "pw": solvermodel.pw_request, "solve": solvermodel.solve_request}
 
 
 def spec_view(spec):
@@ -327,6 +327,12 @@ def run_shard(pid, seed, shard, ncases, tier, extra):
         for key, what in cmp(rep):
             c2 = dict(case); c2["request"] = line[:4000]; c2["model_reply"] = rep[:4000]
             findings.append(Finding("correspondence", key, what, c2))
+        if which == "solve":
+            r = common.parse_reply(rep)
+            if r[0] == "ok":
+                tag = "ties-skipped" if r[1].get("ties") == "true" else r[1]["msg"]
+                hist["solve-stop:%s" % tag] = hist.get("solve-stop:%s" % tag, 0) + 1
+                hist["solve-iterations"] = hist.get("solve-iterations", 0) + int(r[1]["iters"])
         if which == "pw":
             its, ext = solvermodel.pw_stats(rep, case["spec"]["dim"])
             hist["pw-iterations"] = hist.get("pw-iterations", 0) + its
